@@ -6,6 +6,7 @@ import (
 	"go/constant"
 	"go/token"
 	"go/types"
+	"sort"
 	"strings"
 	"unicode"
 )
@@ -512,6 +513,16 @@ func (c *ctx) scannerFacts() *leanFile {
 	if nextSingles == nil {
 		nextSingles = []int64{}
 	}
+	// The arms of a switch on constants are mutually exclusive, so their order carries no meaning:
+	// list them in a fixed order of the first character (the one of the committed facts: < > ! . /),
+	// any other first character after these by code point.
+	rank := func(ch int64) int64 {
+		if i := strings.IndexRune("<>!./", rune(ch)); i >= 0 && ch < 0x80 {
+			return int64(i)
+		}
+		return 0x100 + ch
+	}
+	sort.SliceStable(twos, func(i, j int) bool { return rank(twos[i].Char1) < rank(twos[j].Char1) })
 
 	nodeTypeNames := c.firstClauseLabels(c.funcDecl("", "isNodeType"), true)
 	stepTokens := c.firstClauseLabels(c.funcDecl("", "isStep"), false)
